@@ -724,6 +724,40 @@ def _where(u, pm, off):
 # ------------------------------------------------------------------ C06
 
 
+def _c06_zero_sized_promotion(world, sess, fb, fe):
+    """'Deleting an entry block promotes the next block only if it is in the
+    same function' where the next block is a zero-sized block kept by an
+    earlier rewrite (zero-sized blocks are not tokens of the listing model;
+    the next block is the successor in the pre-session address order, in
+    which a zero-sized block precedes the block that starts at its address)."""
+    pre_order = getattr(sess, "pre_order", None)
+    if not pre_order or sess.error is not None:
+        return
+    if any(op["k"] in ("delfn", "insfn") or (op["k"] == "delblock" and op.get("proxy")) for op in sess.desc["ops"]):
+        return
+    live = {b.uuid: b for b in world.module.byte_blocks}
+    entries_now = {b.uuid: fu for fu, bs in fe.data.items() for b in bs}
+    for sect, po in pre_order.items():
+        for j, (bu, is_code, size, _) in enumerate(po):
+            if bu in live or not is_code or size == 0 or bu not in sess.pre_fentries:
+                continue  # not a deleted entry block
+            if j + 1 >= len(po):
+                continue
+            nu, n_code, n_size, _ = po[j + 1]
+            if not n_code or n_size != 0 or nu not in live:
+                continue  # (non-empty successors are the listing model's business)
+            fu = sess.pre_fentries[bu]
+            if sess.pre_fblocks.get(nu) != fu or fu not in fb.data:
+                continue
+            if entries_now.get(nu) != fu:
+                raise core.Violation(
+                    "C06",
+                    "wrong-promotion",
+                    {"what": "entry block deleted, the next block (zero-sized, same function) was not promoted to an entry", "function": world.func_ids.get(fu, str(fu)[:8])},
+                    {"kind": "zero-sized-not-promoted"},
+                )
+
+
 def check_c06(mt, sess):
     from .driver import learn_functions
 
@@ -751,6 +785,7 @@ def check_c06(mt, sess):
         for b in bs:
             if fu not in fb.data or b not in fb.data[fu]:
                 raise core.Violation("C06", "entry-not-in-blocks", {"function": world.func_ids.get(fu, str(fu))}, {"kind": "entry"})
+    _c06_zero_sized_promotion(world, sess, fb, fe)
     # attribution per instruction
     real_func_at = {}
     for b in m.code_blocks:
@@ -1305,12 +1340,15 @@ def check_c18(mt, sess):
             for d in dirs:
                 if isinstance(d[2], gtirb.Symbol):
                     now.append((d[0], d[2].name))
-    want = sorted((d, pairs.get(n, n)) for d, n in pre["cfi"])
+    # (symbols deleted in the same rewrite - after the retargets - leave the
+    # tables: CFI operands are nulled, forwarding entries dropped; C19)
+    gone = set(getattr(sess, "delsyms", None) or ()) if sess.error is None else set()
+    want = sorted((d, pairs.get(n, n)) for d, n in pre["cfi"] if pairs.get(n, n) not in gone)
     if sorted(now) != want and not any(op["k"] in ("del", "delblock", "rep", "delfn") for op in sess.desc["ops"]):
         raise core.Violation("C18", "mention-left" if any(n in pairs for _, n in now) else "collateral-change", {"table": "cfiDirectives", "expected": want[:6], "real": sorted(now)[:6]}, {**sig_base, "via": "cfi"})
     fwd = m.aux_data.get("symbolForwarding")
     nowf = sorted((a.name, b.name) for a, b in fwd.data.items()) if fwd is not None else []
-    wantf = sorted((a, pairs.get(b, b)) for a, b in pre["fwd"])
+    wantf = sorted((a, pairs.get(b, b)) for a, b in pre["fwd"] if a not in gone and pairs.get(b, b) not in gone)
     if nowf != wantf:
         raise core.Violation("C18", "mention-left" if any(b in pairs for _, b in nowf) else "collateral-change", {"table": "symbolForwarding", "expected": wantf[:6], "real": nowf[:6]}, {**sig_base, "via": "symbolForwarding"})
     try:
